@@ -422,6 +422,15 @@ def em4(model):
         if any(isinstance(n, ast.Call) and getattr(n.func, 'id', '') == 'open' for n in ast.walk(g.node)):
             reader = g
     if reader is None:
+        # the closure may only forward to a module-level function that does the reading
+        for k, g in f.nested.items():
+            body = [s_ for s_ in g.node.body if not (isinstance(s_, ast.Expr) and isinstance(s_.value, ast.Constant))]
+            if len(body) == 1 and isinstance(body[0], ast.Return) and isinstance(body[0].value, ast.Call):
+                rc = model.resolve_call(body[0].value)
+                if rc and rc[0] == 'func' and not isinstance(rc[1].node, ast.Lambda) and any(
+                        isinstance(n, ast.Call) and getattr(n.func, 'id', '') == 'open' for n in ast.walk(rc[1].node)):
+                    reader = rc[1]
+    if reader is None:
         r.fail(f.node, 'tex2txt no longer passes a file reader to the parser', stmt='read callback')
     else:
         tries = [n for n in iter_scope(reader.node) if isinstance(n, ast.Try)]
@@ -723,5 +732,36 @@ def th4(model):
                    witness='a long multi-line match, a short one inside it, and a later match on '
                            'a line the long one still covers')
         else:
-            r.undec(s, 'region test not recognised')
+            # running maximum: `end = max(end, h.endlin)` when the entry joins the region, `end = h.endlin` when
+            # a new region is opened; the test compares with that variable
+            names = {x.id for x in ast.walk(t) if isinstance(x, ast.Name)}
+            running = None
+            for v in sorted(names):
+                asg = [a for a in ast.walk(grp) if isinstance(a, ast.Assign) and len(a.targets) == 1
+                       and isinstance(a.targets[0], ast.Name) and a.targets[0].id == v]
+                if not asg:
+                    continue
+                joins = [a for a in asg if isinstance(a.value, ast.Call) and getattr(a.value.func, 'id', '') == 'max'
+                         and any(isinstance(x, ast.Name) and x.id == v for x in a.value.args)]
+                resets = [a for a in asg if a not in joins]
+                opens = all(any(isinstance(c, ast.Call) and isinstance(c.func, ast.Attribute) and c.func.attr == 'append'
+                                and c.args and isinstance(c.args[0], ast.List)
+                                for sib in T_block(a) for c in ast.walk(sib)) for a in resets)
+                if joins and opens:
+                    running = v
+            if running:
+                r.ok(s, 'the test compares with the running maximum %s of the ends of the last region' % running,
+                     nontrivial=True)
+            else:
+                r.undec(s, 'region test not recognised')
+                r.instances += 1
     return r
+
+
+def T_block(stmt):
+    p = getattr(stmt, '_parent', None)
+    for field in ('body', 'orelse', 'finalbody'):
+        seq = getattr(p, field, None)
+        if isinstance(seq, list) and stmt in seq:
+            return seq
+    return [stmt]
